@@ -21,7 +21,13 @@ func schedOf(sid, tz int) cron.Schedule {
 	if s, ok := schedCache[k]; ok {
 		return s
 	}
-	s := parseSchedule(baseCJ(sid, tz))
+	// NOT the controller's parser: the schedule as the spec means it (specSchedule); a zone
+	// that does not load has no schedule at all, the generator then places its instants with
+	// the zone-less one
+	s, ok := specSchedule(sid, tz)
+	if !ok {
+		s, _ = specSchedule(sid, 0)
+	}
 	schedCache[k] = s
 	return s
 }
@@ -89,9 +95,19 @@ func schedTokens(sid, tz int, lo, hi int64) ([]int64, bool) {
 	if p, ok := everyPeriod[sid]; ok {
 		return []int64{int64(sid), int64(tz), 1, p}, true
 	}
-	pts, ok := points(schedOf(sid, tz), lo, hi, 3)
+	sch := schedOf(sid, tz)
+	pts, ok := points(sch, lo, hi, 3)
 	if !ok {
 		return nil, false
+	}
+	if ss, isSpec := sch.(*cron.SpecSchedule); isSpec && schedKind(sid) == kDescriptor {
+		// the oracle itself, read on the wall clock of the zone the spec names
+		loc := ss.Location
+		for _, p := range pts {
+			if !wallClockOK(sid, loc, p) {
+				panic(fmt.Sprintf("schedule table of %q: %d is not on the wall clock of %v", schedPool[sid], p, loc))
+			}
+		}
 	}
 	return cat([]int64{int64(sid), int64(tz), 0}, encList(pts)), true
 }
@@ -126,10 +142,10 @@ func (c choiceCase) tokens() ([]int64, bool) {
 }
 
 func (c choiceCase) desc() any {
-	d := map[string]any{"schedule": schedPool[c.sid], "tz": tzPool[c.tz], "created": tm(c.created).Format(time.RFC3339Nano),
-		"now": tm(c.now).Format(time.RFC3339Nano), "includeDeadline": c.incl}
+	d := map[string]any{"schedule": schedPool[c.sid], "tz": tzPool[c.tz], "created": tm(c.created).UTC().Format(time.RFC3339Nano),
+		"now": tm(c.now).UTC().Format(time.RFC3339Nano), "includeDeadline": c.incl}
 	if c.last != nil {
-		d["lastSchedule"] = tm(*c.last).Format(time.RFC3339Nano)
+		d["lastSchedule"] = tm(*c.last).UTC().Format(time.RFC3339Nano)
 	}
 	if c.deadline != nil {
 		d["startingDeadlineSeconds"] = *c.deadline
@@ -137,13 +153,14 @@ func (c choiceCase) desc() any {
 	return d
 }
 
-var choiceSids = []int{0, 0, 1, 1, 2, 3, 4, 4, 5, 6, 6, 7, 8, 9, 9, 10, 11, 12, 13, 13, 14, 15, 16, 17, 17, 18}
+var choiceSids = []int{0, 0, 1, 1, 2, 3, 4, 4, 5, 6, 6, 7, 8, 9, 9, 10, 11, 11, 12, 12, 13, 13, 14, 15, 16, 17, 17, 18,
+	19, 19, 20, 21, 22, 23, 23, 24, 25, 26, 27, 28}
 
 func genChoice(r *vh.Rng) choiceCase {
 	for {
 		c := choiceCase{sid: vh.Pick(r, choiceSids), incl: r.Chance(2, 3)}
-		if r.Chance(1, 3) {
-			c.tz = r.Intn(len(tzPool))
+		if r.Chance(1, 2) {
+			c.tz = r.Intn(tzInvalid) // every zone that loads (a zone that does not has no schedule: selectors 12, 20)
 		}
 		s := schedOf(c.sid, c.tz)
 		c.created = t0 + int64(r.Intn(30*86400))*sec
@@ -286,7 +303,7 @@ func genGjobRel(r *vh.Rng, uid int64, expired bool) gjob {
 
 // ---------- histories ----------
 
-var histSids = []int{0, 0, 1, 1, 2, 9, 13, 15, 18, 6, 4, 17}
+var histSids = []int{0, 0, 1, 1, 2, 9, 13, 15, 18, 6, 4, 17, 11, 11, 12, 23, 24, 26, 27, 28}
 
 type histGen struct {
 	r       *vh.Rng
@@ -309,8 +326,8 @@ func (h *histGen) pointBefore(t, created int64) int64 {
 func genHistory(r *vh.Rng) ([]int64, any, bool) {
 	for {
 		h := &histGen{r: r, sid: vh.Pick(r, histSids)}
-		if r.Chance(1, 5) {
-			h.tz = r.Intn(len(tzPool))
+		if r.Chance(2, 5) {
+			h.tz = r.Intn(len(tzPool)) // incl. the zone that does not load
 		}
 		h.s = schedOf(h.sid, h.tz)
 		created := t0 + int64(r.Intn(3*86400))*sec
@@ -339,6 +356,7 @@ func genHistory(r *vh.Rng) ([]int64, any, bool) {
 				spec = append(spec, 1, int64(r.Intn(4)))
 			}
 		}
+		spec = append(spec, vh.B(tzLoads(h.tz)))
 		// initial jobs
 		jobs := []mjob{}
 		used := map[int64]bool{}
@@ -519,14 +537,14 @@ func gen(rng *vh.Rng, n int, emit func(id string, sel int, in []int64, kind stri
 		emit(fmt.Sprintf("gc-skew-%d", i), 1, cat(g.enc(), []int64{fin - 30*sec}), "gc/timeLeft-boundary", true, nil)
 	}
 	// DESIGN F8: a weekday schedule over a weekend
-	f8 := choiceCase{sid: 4, created: t0 + 6*3600*sec, now: t0 + (2*86400+12*3600)*sec, incl: true}
+	f8 := choiceCase{sid: 4, tz: 1, created: t0 + 6*3600*sec, now: t0 + (2*86400+12*3600)*sec, incl: true}
 	if in, ok := f8.tokens(); ok {
 		emit("cron-f8-weekend", 10, in, "cron/choice-known", true, f8.desc())
 	}
 	for k, d := range []int64{-1, 0, 1} {
 		// around the first and the second schedule point after creation
 		for j, base := range []int64{t0 + 3600*sec, t0 + 2*3600*sec} {
-			c := choiceCase{sid: 2, created: t0 + 1800*sec, now: base + d, incl: true}
+			c := choiceCase{sid: 2, tz: 1, created: t0 + 1800*sec, now: base + d, incl: true}
 			in, _ := c.tokens()
 			emit(fmt.Sprintf("cron-boundary-%d-%d", j, k), 10, in, "cron/choice-known", true, c.desc())
 		}
@@ -534,6 +552,27 @@ func gen(rng *vh.Rng, n int, emit func(id string, sel int, in []int64, kind stri
 	never := choiceCase{sid: 8, created: t0, now: t0 + 86400*sec, incl: true}
 	if in, ok := never.tokens(); ok {
 		emit("cron-never", 10, in, "cron/choice-known", false, never.desc())
+	}
+
+	// the zone of the schedule: every schedule string x every spec.timeZone
+	for sid := range schedPool {
+		for tz := range tzPool {
+			emit(fmt.Sprintf("cron-zone-%d-%d", sid, tz), 12, zoneCaseTokens(sid, tz), "cron/zone", tz > 0,
+				map[string]any{"schedule": schedPool[sid], "tz": tzPool[tz]})
+		}
+	}
+	// a wall-clock descriptor in a zone: around its first point after creation (DESIGN 13 / seed C18-r3-2)
+	for k, d := range []int64{-1, 0, 1} {
+		for j, c := range []choiceCase{
+			{sid: 12, tz: 4, created: t0 + 4*86400*sec + 1800*sec, incl: true}, // @daily, America/New_York
+			{sid: 11, tz: 3, created: t0 + 1800*sec, incl: true},               // @hourly, Asia/Kolkata (+05:30)
+			{sid: 19, tz: 2, created: t0 + 1800*sec, incl: true},               // @weekly, Asia/Shanghai
+		} {
+			q, _ := nextOf(schedOf(c.sid, c.tz), c.created)
+			c.now = q + d
+			in, _ := c.tokens()
+			emit(fmt.Sprintf("cron-descriptor-zone-%d-%d", j, k), 10, in, "cron/choice-known", true, c.desc())
+		}
 	}
 
 	// --- random streams ---
